@@ -12,15 +12,20 @@ EXTENDS IntMath, Sequences, FiniteSets, TLC
 \* c.same_crs, c.same_units : relation between source and (resolved) target CRS
 \* "default options": every option at its default
 Identity(c) == c.same_crs /\ c.opts.res = "auto" /\ c.opts.shape = "none" /\ c.opts.anchor = "default" /\ ~c.opts.tight /\ c.opts.tol = <<1, 100>>
-Constrained(c) == ~c.same_crs \/ Identity(c)          \* the source's own CRS with non-default options is not constrained by the statement
+\* what the code does: the source's own CRS short-circuits (returns the source) whenever resolution, shape and anchor are at their
+\* defaults - tight and tol are not looked at on that route; the statement demands it only for Identity and is silent on the rest of
+\* ShortCircuit, so there either the source itself or a grid meeting the general contract is accepted.  Any other request for the
+\* source's own CRS (explicit anchor, fit / explicit resolution, shape) takes the general route and owes the general contract.
+ShortCircuit(c) == c.same_crs /\ c.opts.res \in {"auto", "same"} /\ c.opts.shape = "none" /\ c.opts.anchor = "default"
+Constrained(c) == TRUE
 Mode(c) == IF c.opts.shape # "none" THEN "shape"
            ELSE IF c.opts.res = "same" \/ (c.opts.res = "auto" /\ c.same_units) THEN "source_resolution"
            ELSE IF c.opts.res \in {"fit", "auto"} THEN "fit" ELSE "explicit"
 Snapped(c) == ~c.opts.tight /\ c.opts.anchor # "floating"
 \* expected offset of pixel edges from the CRS origin, in 1/1024 pixel
-AnchorFrac(c) == CASE c.opts.anchor = "default" -> <<0, 0>> [] c.opts.anchor = "center" -> <<512, 512>> [] c.opts.anchor = "xy" -> <<256, 768>>
+AnchorFrac(c) == CASE c.opts.anchor \in {"default", "edge"} -> <<0, 0>> [] c.opts.anchor = "center" -> <<512, 512>> [] c.opts.anchor = "xy" -> <<256, 768>>
 \* design-level consistency of the table
-TableOK(c) == /\ (Identity(c) => Mode(c) = "source_resolution")
+TableOK(c) == /\ (Identity(c) => Mode(c) = "source_resolution") /\ (Identity(c) => ShortCircuit(c)) /\ (ShortCircuit(c) => Mode(c) = "source_resolution")
               /\ (Mode(c) = "shape" => ~Identity(c))
 
 (* ---- contract on the observed result ----
@@ -34,6 +39,7 @@ OutV(e) ==
   ELSE IF c.opts.res = "same" /\ ~c.same_units THEN "skip"          \* the source resolution in other units is a user error, not constrained
   ELSE IF o.w > 200000 \/ o.h > 200000 THEN "skip"
   ELSE IF Identity(c) THEN (IF o.is_source THEN "ok" ELSE "own_crs_with_default_options_did_not_return_the_source_unchanged")
+  ELSE IF ShortCircuit(c) /\ o.is_source THEN "ok"
   ELSE IF ~o.axis_aligned THEN "result_not_axis_aligned"
   ELSE IF ~o.crs_ok THEN "result_not_in_the_requested_crs"
   ELSE IF Mode(c) = "shape" THEN
